@@ -85,7 +85,9 @@ class Interp:
         self.G = graph_from_json(case["graph"])
         if any(self.G.degree(v) == 0 for v in self.G) or self.G.number_of_edges() == 0:
             raise ValueError("isolated node")
-        self.st = guarded(fp.stDAG if self.kind == "dag" else fp.stDiGraph, self.G)
+        self.starts = [v for v in case.get("starts", []) if v in self.G]
+        self.ends = [v for v in case.get("ends", []) if v in self.G]
+        self.st = guarded(fp.stDAG if self.kind == "dag" else fp.stDiGraph, self.G, additional_starts=list(self.starts), additional_ends=list(self.ends))
         self.H = nx.DiGraph(self.st)  # plain copy of the augmented graph for reference searches
         self.nodes = sorted(self.H.nodes(), key=str)
         self.edges = sorted(self.H.edges(), key=str)
@@ -175,7 +177,11 @@ class Interp:
             if len(set(ign)) >= len(self.base_edges):
                 ign = ign[:-1] if len(set(ign[:-1])) < len(self.base_edges) else []
             required = [e for e in self.base_edges if e not in set(ign)]
-            want = dilworth(self.G, required)
+            want = dilworth(self.G, required, self.starts, self.ends)
+            if op[2] == "noargs" and not ign and (self.starts or self.ends):
+                # without arguments the width covers ALL edges of the s-t graph, and the synthetic edge of a declared inner
+                # start/end node is not comparable with that node's own edges
+                want = dilworth(self.H, list(self.H.edges()))
             if want is None:
                 return
             if op[2] == "noargs" and not ign:
@@ -228,8 +234,8 @@ class Interp:
             if len(got_ac) >= 2:
                 self.flags["antichain>=2"] += 1
         elif name in ("peel", "bottleneck"):
-            if self.kind != "dag":
-                return
+            if self.kind != "dag" or self.starts or self.ends:
+                return  # peeling is stated for a conserving flow between the graph's own sources and sinks
             f = {(u, v): d["flow"] for u, v, d in self.G.edges(data=True)}
             if name == "peel":
                 paths, weights = stg.decompose_using_max_bottleneck("flow")
@@ -311,7 +317,13 @@ def graphs(draw, tier):
     else:
         inst = draw(gen.planted_walk_flows(max_nodes=8 if big else 6, max_walks=3))
     g = {"nodes": [[v, {}] for v in inst["nodes"]], "edges": [[u, v, {"flow": inst["flow"][(u, v)]}] for (u, v) in inst["edges"]]}
-    return {"kind": kind, "graph": g}
+    out = {"kind": kind, "graph": g}
+    if draw(st.integers(0, 2)) == 0:
+        # declared additional start / end nodes (any node, also inner ones): the augmented graph gets extra source / sink edges
+        nodes = list(inst["nodes"])
+        out["starts"] = sorted(set(draw(st.lists(st.sampled_from(nodes), min_size=0, max_size=2))))
+        out["ends"] = sorted(set(draw(st.lists(st.sampled_from(nodes), min_size=0, max_size=2))))
+    return out
 
 
 def make_machine(tier, rec, raise_on_new):
